@@ -3,10 +3,13 @@ package main
 import (
 	"fmt"
 	"go/ast"
+	"go/constant"
 	"go/token"
 	"go/types"
 	"sort"
 	"strings"
+
+	"golang.org/x/tools/go/packages"
 )
 
 func init() { registry["C16"] = checkC16 }
@@ -50,7 +53,7 @@ func mapOrderLibCall(info *types.Info, e ast.Expr) (string, bool) {
 		return "", false
 	}
 	p := fn.Pkg().Path()
-	if (p == "maps" || p == "golang.org/x/exp/maps") && (fn.Name() == "Keys" || fn.Name() == "Values" || fn.Name() == "All") {
+	if (p == "maps" || p == "golang.org/x/exp/maps") && (nameIs(fn, "Keys") || nameIs(fn, "Values") || nameIs(fn, "All")) {
 		return p + "." + fn.Name(), true
 	}
 	return "", false
@@ -305,7 +308,7 @@ func checkC16(c *Check) {
 					ok = false
 					return true
 				}
-				if fn.Pkg() != nil && fn.Pkg().Path() == "slices" && (fn.Name() == "Contains" || fn.Name() == "Index") {
+				if fn.Pkg() != nil && fn.Pkg().Path() == "slices" && (nameIs(fn, "Contains") || nameIs(fn, "Index")) {
 					return true
 				}
 				if fn == callee.Obj {
@@ -465,6 +468,9 @@ func checkC16(c *Check) {
 				return true, true, "natural order of the elements", call.Pos()
 			case "sort.Slice", "sort.SliceStable", "slices.SortFunc", "slices.SortStableFunc":
 				if len(call.Args) == 2 {
+					if tot, decided, why := evalComparator(L, info, call.Args[1], ml.fi.Decl.Body, strings.HasPrefix(q, "sort.")); decided {
+						return true, tot, why, call.Pos()
+					}
 					if body, binfo := comparatorBody(L, info, ml.fi.Decl.Body, call.Args[1]); body != nil {
 						ok, why := totalComparator(L, binfo, body)
 						return true, ok, why, call.Pos()
@@ -616,7 +622,7 @@ func checkC16(c *Check) {
 									if uid, ok := ast.Unparen(a).(*ast.Ident); ok && info.Uses[uid] == obj {
 										if fn := Callee(info, u); fn != nil {
 											// membership tests are order-independent
-											if fn.Pkg() != nil && fn.Pkg().Path() == "slices" && (fn.Name() == "Contains" || fn.Name() == "Sort") {
+											if fn.Pkg() != nil && fn.Pkg().Path() == "slices" && (nameIs(fn, "Contains") || nameIs(fn, "Sort")) {
 												continue
 											}
 											if fi2 := L.Funcs[fn]; fi2 != nil && onlyMembership(L, fi2, u, a) {
@@ -646,14 +652,16 @@ func checkC16(c *Check) {
 			// collected and sorted in one expression: slices.Sorted(maps.Keys(m)), slices.SortedFunc(maps.Values(m), cmp)
 			if pc, ok := parent.(*ast.CallExpr); ok {
 				if pf := Callee(info, pc); pf != nil && pf.Pkg() != nil && pf.Pkg().Path() == "slices" {
-					switch pf.Name() {
+					switch canonName(pf) {
 					case "Sorted":
 						rs.OK(q+"|slices.Sorted("+src+")", pc.Pos(), "natural order of the elements")
 						return true
 					case "SortedFunc", "SortedStableFunc":
 						okc, why := false, "the comparator is not a function literal nor a function of the repository"
 						if len(pc.Args) == 2 {
-							if body, binfo := comparatorBody(L, info, fi.Decl.Body, pc.Args[1]); body != nil {
+							if tot, decided, w := evalComparator(L, info, pc.Args[1], fi.Decl.Body, false); decided {
+								okc, why = tot, w
+							} else if body, binfo := comparatorBody(L, info, fi.Decl.Body, pc.Args[1]); body != nil {
 								okc, why = totalComparator(L, binfo, body)
 							}
 						}
@@ -778,7 +786,7 @@ func onlyMembershipD(L *Loaded, callee *FuncInfo, call *ast.CallExpr, arg ast.Ex
 		p := parentOf(callee.Decl.Body, id)
 		if c, isCall := p.(*ast.CallExpr); isCall {
 			if fn := Callee(info, c); fn != nil {
-				if fn.Pkg() != nil && fn.Pkg().Path() == "slices" && (fn.Name() == "Contains" || fn.Name() == "Index") {
+				if fn.Pkg() != nil && fn.Pkg().Path() == "slices" && (nameIs(fn, "Contains") || nameIs(fn, "Index")) {
 					return true
 				}
 				if fn == callee.Obj {
@@ -832,6 +840,268 @@ func comparatorBody(L *Loaded, info *types.Info, scope ast.Node, e ast.Expr) (*a
 	return nil, nil
 }
 
+// evalComparator decides a comparator by evaluating it (engine E2) on a finite population of synthetic elements. Every
+// element k stands for one source entity: an accessor chain that ends in a token.Position yields position k of
+// {(1,1),(1,2),(2,1),(2,2)} (two entities never start at the same position), one that ends in an identifying key
+// (identityKeys: ast.Module.FileName) yields a string that differs per element, every other string or number yields the
+// same value for all elements (so a comparator that only looks at a non-identifying key has ties and is rejected).
+// Decided: irreflexive, total on distinct elements, antisymmetric, transitive. ok=false,decided=false when the
+// evaluation loses precision - the caller then falls back to the recognised forms.
+func evalComparator(L *Loaded, info *types.Info, cmpExpr ast.Expr, scope ast.Node, indexed bool) (total bool, decided bool, why string) {
+	in := NewInterp(L)
+	in.MaxDepth = 8
+	positions := [][2]int64{{1, 1}, {1, 2}, {2, 1}, {2, 2}}
+	n := len(positions)
+	identity := map[string]bool{"ast.Module.FileName": true}
+	short := func(t types.Type) string {
+		return strings.TrimPrefix(types.TypeString(t, func(p *types.Package) string { return p.Name() }), "*")
+	}
+	var synth func(k int64, owner string, name string, t types.Type) (Val, bool)
+	synth = func(k int64, owner, name string, t types.Type) (Val, bool) {
+		if t == nil {
+			return nil, false
+		}
+		switch short(t) {
+		case "token.Position":
+			o := newObj("token.Position")
+			o.set("Line", ConstV{V: constant.MakeInt64(positions[k][0]), T: types.Typ[types.Uint]})
+			o.set("Column", ConstV{V: constant.MakeInt64(positions[k][1]), T: types.Typ[types.Uint]})
+			return o, true
+		}
+		switch u := t.Underlying().(type) {
+		case *types.Basic:
+			switch {
+			case u.Info()&types.IsString != 0:
+				if identity[owner+"."+name] {
+					return StrV(fmt.Sprintf("k%02d", k)), true
+				}
+				return StrV("same"), true
+			case u.Info()&types.IsInteger != 0:
+				return ConstV{V: constant.MakeInt64(7), T: t}, true
+			case u.Info()&types.IsBoolean != 0:
+				return boolV(false), true
+			}
+			return nil, false
+		case *types.Struct, *types.Pointer, *types.Interface:
+			o := newObj(short(t))
+			o.set("·k", ConstV{V: constant.MakeInt64(k), T: types.Typ[types.Int]})
+			return o, true
+		}
+		return nil, false
+	}
+	keyOf := func(o *Obj) (int64, bool) {
+		if cv, ok := o.get("·k").(ConstV); ok && cv.V != nil {
+			v, _ := constant.Int64Val(cv.V)
+			return v, true
+		}
+		return 0, false
+	}
+	in.FieldFallback = func(o *Obj, name string, t types.Type) (Val, bool) {
+		k, ok := keyOf(o)
+		if !ok {
+			return nil, false
+		}
+		v, ok := synth(k, o.Kind, name, t)
+		if ok {
+			o.set(name, v) // the same entity answers the same way every time
+		}
+		return v, ok
+	}
+	in.CallFallback = func(fn *types.Func, recv Val, args []Val, t types.Type) (Val, bool) {
+		o, ok := recv.(*Obj)
+		if !ok || len(args) != 0 || fn == nil {
+			return nil, false
+		}
+		k, ok := keyOf(o)
+		if !ok {
+			return nil, false
+		}
+		if p, have := o.F["()"+fn.Name()]; have {
+			return *p, true
+		}
+		v, ok := synth(k, o.Kind, fn.Name()+"()", t)
+		if ok {
+			o.set("()"+fn.Name(), v)
+		}
+		return v, ok
+	}
+	threeWayCmp := func(in *Interp, pkg *packages.Package, call *ast.CallExpr, recv Val, args []Val) (Val, bool) {
+		if len(args) != 2 {
+			return nil, false
+		}
+		r := 0
+		switch a := args[0].(type) {
+		case StrV:
+			b, ok := args[1].(StrV)
+			if !ok {
+				return nil, false
+			}
+			r = strings.Compare(string(a), string(b))
+		case ConstV:
+			b, ok := args[1].(ConstV)
+			if !ok || a.V == nil || b.V == nil {
+				return nil, false
+			}
+			switch {
+			case constant.Compare(a.V, token.LSS, b.V):
+				r = -1
+			case constant.Compare(a.V, token.GTR, b.V):
+				r = 1
+			}
+		default:
+			return nil, false
+		}
+		return ConstV{V: constant.MakeInt64(int64(r)), T: types.Typ[types.Int]}, true
+	}
+	in.Models["strings.Compare"] = threeWayCmp
+	in.Models["cmp.Compare"] = threeWayCmp
+	// the element type: parameter type of the comparator, or the element type of the sorted slice for index comparators
+	var elems []Val
+	mkElems := func(t types.Type) {
+		elems = nil
+		for k := 0; k < n; k++ {
+			o := newObj(short(t))
+			o.set("·k", ConstV{V: constant.MakeInt64(int64(k)), T: types.Typ[types.Int]})
+			elems = append(elems, o)
+		}
+	}
+	cmpT, _ := info.TypeOf(cmpExpr).Underlying().(*types.Signature)
+	if cmpT == nil || cmpT.Params().Len() != 2 || cmpT.Results().Len() != 1 {
+		return false, false, "comparator signature"
+	}
+	resBool := false
+	if b, ok := cmpT.Results().At(0).Type().Underlying().(*types.Basic); ok && b.Info()&types.IsBoolean != 0 {
+		resBool = true
+	}
+	var call func(i, j int) Val
+	body, binfo := comparatorBody(L, info, scope, cmpExpr)
+	if body == nil {
+		return false, false, "comparator body not found"
+	}
+	_ = binfo
+	if indexed {
+		// sort.Slice(s, func(i, j int) bool {...}): the closure indexes the captured slice; bind every captured slice-typed
+		// variable used in an index expression to the population
+		fl, ok := ast.Unparen(cmpExpr).(*ast.FuncLit)
+		if !ok {
+			return false, false, "index comparator that is not a literal"
+		}
+		env := newEnv(nil)
+		var elemT types.Type
+		ast.Inspect(fl.Body, func(m ast.Node) bool {
+			if ix, ok := m.(*ast.IndexExpr); ok {
+				if id, ok := ast.Unparen(ix.X).(*ast.Ident); ok {
+					if sl, ok := info.TypeOf(id).Underlying().(*types.Slice); ok {
+						if elemT == nil {
+							elemT = sl.Elem()
+							mkElems(elemT)
+						}
+						env.define(info.Uses[id], SliceV{Elems: elems})
+					}
+				}
+			}
+			return true
+		})
+		if elemT == nil {
+			return false, false, "index comparator does not index a slice"
+		}
+		var pkg *packages.Package
+		for _, p := range L.Pkgs {
+			if p.TypesInfo == info {
+				pkg = p
+			}
+		}
+		if pkg == nil {
+			return false, false, "package of the comparator not found"
+		}
+		cl := Closure{Lit: fl, Env: env, Pkg: pkg}
+		call = func(i, j int) Val {
+			return in.callClosure(cl, []Val{ConstV{V: constantInt(i), T: intType()}, ConstV{V: constantInt(j), T: intType()}})
+		}
+	} else {
+		mkElems(cmpT.Params().At(0).Type())
+		var pkg *packages.Package
+		for _, p := range L.Pkgs {
+			if p.TypesInfo == info {
+				pkg = p
+			}
+		}
+		switch x := ast.Unparen(cmpExpr).(type) {
+		case *ast.FuncLit:
+			if pkg == nil {
+				return false, false, "package of the comparator not found"
+			}
+			cl := Closure{Lit: x, Env: newEnv(nil), Pkg: pkg}
+			call = func(i, j int) Val { return in.callClosure(cl, []Val{elems[i], elems[j]}) }
+		default:
+			var id *ast.Ident
+			switch y := x.(type) {
+			case *ast.Ident:
+				id = y
+			case *ast.SelectorExpr:
+				id = y.Sel
+			}
+			if id == nil {
+				return false, false, "comparator expression"
+			}
+			fn, _ := info.Uses[id].(*types.Func)
+			if fn == nil || L.Funcs[fn.Origin()] == nil {
+				return false, false, "comparator is not a function of the repository"
+			}
+			fi := L.Funcs[fn.Origin()]
+			call = func(i, j int) Val { return in.CallFunc(fi, nil, []Val{elems[i], elems[j]}) }
+		}
+	}
+	less := make([][]bool, n)
+	for i := 0; i < n; i++ {
+		less[i] = make([]bool, n)
+		for j := 0; j < n; j++ {
+			var res Val
+			runs, _ := in.RunAll(4, func() { res = call(i, j) })
+			if runs != 1 {
+				return false, false, "the comparator's outcome depends on something the evaluation does not know"
+			}
+			if resBool {
+				t, known := truth(res)
+				if !known {
+					return false, false, fmt.Sprintf("comparison (%d,%d) not evaluated: %v", i, j, res)
+				}
+				less[i][j] = t
+			} else {
+				cv, ok := res.(ConstV)
+				if !ok || cv.V == nil || cv.V.Kind() != constant.Int {
+					return false, false, fmt.Sprintf("comparison (%d,%d) not evaluated: %v", i, j, res)
+				}
+				v, _ := constant.Int64Val(cv.V)
+				less[i][j] = v < 0
+				// consistency of the three-way result
+				if i == j && v != 0 {
+					return false, true, "an element does not compare equal to itself"
+				}
+			}
+		}
+	}
+	for i := 0; i < n; i++ {
+		if less[i][i] {
+			return false, true, "an element is ordered before itself"
+		}
+		for j := 0; j < n; j++ {
+			if i != j && less[i][j] == less[j][i] {
+				if less[i][j] {
+					return false, true, "two elements are each ordered before the other"
+				}
+				return false, true, fmt.Sprintf("two different entities (start positions %v and %v, different identifying keys) compare as equal: their order is whatever the map iteration produced", positions[i], positions[j])
+			}
+			for k := 0; k < n; k++ {
+				if less[i][j] && less[j][k] && !less[i][k] {
+					return false, true, "not transitive"
+				}
+			}
+		}
+	}
+	return true, true, fmt.Sprintf("evaluated on %d×%d synthetic entities: a strict total order on start positions / identifying keys", n, n)
+}
+
 func totalComparator(L *Loaded, info *types.Info, flBody *ast.BlockStmt) (bool, string) {
 	fl := struct{ Body *ast.BlockStmt }{flBody}
 	// collect field names compared with < or >, == and the boolean skeleton
@@ -845,7 +1115,7 @@ func totalComparator(L *Loaded, info *types.Info, flBody *ast.BlockStmt) (bool, 
 	for _, r := range rets {
 		if len(r.Results) == 1 {
 			if call, ok := ast.Unparen(r.Results[0]).(*ast.CallExpr); ok {
-				if fn := Callee(info, call); fn != nil && (fn.Name() == "IsBefore" || fn.Name() == "IsBehind") && fn.Pkg() != nil && fn.Pkg().Name() == "token" && len(rets) == 1 {
+				if fn := Callee(info, call); fn != nil && (nameIs(fn, "IsBefore") || nameIs(fn, "IsBehind")) && fn.Pkg() != nil && nameIs(fn.Pkg(), "token") && len(rets) == 1 {
 					return true, "token.Position." + fn.Name() + " (lexicographic on line, column)"
 				}
 			}
@@ -855,7 +1125,7 @@ func totalComparator(L *Loaded, info *types.Info, flBody *ast.BlockStmt) (bool, 
 	identityKeys := map[string]string{"ast.Module.FileName": "a module is identified by the path of its file (C10 R10.5)"}
 	if len(rets) == 1 && len(rets[0].Results) == 1 {
 		if call, ok := ast.Unparen(rets[0].Results[0]).(*ast.CallExpr); ok && len(call.Args) == 2 {
-			if fn := Callee(info, call); fn != nil && fn.Name() == "Compare" && fn.Pkg() != nil && (fn.Pkg().Path() == "strings" || fn.Pkg().Path() == "cmp") {
+			if fn := Callee(info, call); fn != nil && nameIs(fn, "Compare") && fn.Pkg() != nil && (fn.Pkg().Path() == "strings" || fn.Pkg().Path() == "cmp") {
 				sx, okx := ast.Unparen(call.Args[0]).(*ast.SelectorExpr)
 				sy, oky := ast.Unparen(call.Args[1]).(*ast.SelectorExpr)
 				if okx && oky && sx.Sel.Name == sy.Sel.Name {
